@@ -64,6 +64,29 @@ def relation_on_impl(res, kind, chunks, as_int=True):
         k, l = rec.chunk_local_index(np.array([g]))
         if chunks[int(k[0])][int(l[0])] != whole[g]:
             return 'chunk_local_index addresses the wrong sample', (g, int(k[0]), int(l[0]))
+    # the same map queried WHILE the signal is being fed (after every chunk, for every index reported so far): a streaming consumer
+    # resolves loops as they are reported; the answers must address the right sample and must not disturb the run
+    if kind != 'F' and len(chunks) >= 2:
+        import pylife.stress.rainflow as RF
+        rec2 = RF.FullRecorder()
+        det2 = rf.detectors()[kind](recorder=rec2)
+        seen = 0
+        for j, c in enumerate(chunks):
+            det2.process(np.asarray(c, dtype=float))
+            seen += len(c)
+            gs = sorted({int(i) for i in list(rec2.index_from) + list(rec2.index_to) + list(det2.residual_index)})
+            for g in gs:
+                if g >= seen:
+                    return 'reported index beyond the samples fed so far', (g, j)
+                k, l = rec2.chunk_local_index(np.array([g]))
+                k, l = int(k[0]), int(l[0])
+                if not (0 <= k <= j and 0 <= l < len(chunks[k]) and chunks[k][l] == whole[g] and sum(len(x) for x in chunks[:k]) + l == g):
+                    return 'chunk_local_index addresses the wrong sample when queried between chunks', (g, k, l, j)
+        conv = (lambda v: int(v)) if as_int else (lambda v: float(v))
+        cyc2 = list(zip([conv(v) for v in rec2.values_from], [conv(v) for v in rec2.values_to],
+                        [int(i) for i in rec2.index_from], [int(i) for i in rec2.index_to]))
+        if cyc2 != a[0] or [int(i) for i in det2.residual_index] != a[2]:
+            return 'querying chunk_local_index between chunks changes the result', (cyc2, a[0])
     return None, None
 
 
